@@ -306,7 +306,7 @@ def _beta_zero_context(ctx, fi, call) -> bool:
 
 
 def run(ctx: Context, R: Reporter):
-    rule(ctx, R)
+    R.guard(rule, ctx, R)
 
 
 def variants():
